@@ -17,7 +17,11 @@ EXTENDS Naturals, Sequences, FiniteSets, TLC, Json
 
 Lower == [a |-> "a", A |-> "a", b |-> "b", B |-> "b", t1 |-> "t1", t2 |-> "t2"]
 NameRec(c, sfx) == [c |-> c, sfx |-> sfx]
-Norm(n) == [c |-> Lower[n.c], sfx |-> n.sfx]
+\* Names recorded from the repository's tests (binding B) are arbitrary ASCII
+\* strings: [codes |-> <<character codes>>]; normalising = lower-casing A..Z.
+LowerCodes(q) == [i \in DOMAIN q |-> IF q[i] \in 65..90 THEN q[i] + 32 ELSE q[i]]
+Norm(n) == IF "codes" \in DOMAIN n THEN [codes |-> LowerCodes(n.codes)]
+           ELSE [c |-> Lower[n.c], sfx |-> n.sfx]
 
 Tables == 1..4
 KindCls == [gen |-> "Symbol", data |-> "DataSymbol", arg |-> "DataSymbol",
@@ -31,7 +35,7 @@ MkSym(id, n, k, dep) == [id |-> id, key |-> Norm(n), name |-> n,
 SetMin(S) == CHOOSE i \in S : \A j \in S : i <= j
 
 \* ------------------------------------------------------------ state queries
-Live(S)        == Tables \ S.dead
+Live(S)        == (DOMAIN S.tabs) \ S.dead
 SymsOf(S, t)   == S.tabs[t].syms
 TagsOf(S, t)   == S.tabs[t].tags
 IdsOf(S, t)    == {x.id : x \in SymsOf(S, t)}
@@ -44,7 +48,13 @@ Named(syms, nn) == {x \in syms : Norm(x.name) = nn}
 SymNamed(syms, nn) == CHOOSE x \in syms : Norm(x.name) = nn
 
 \* the tables searched from t outwards (innermost first)
-Chain(S, t) == IF t = 1 THEN <<1>>
+\* (a state of the four-table model has the field `inner`; a local state
+\* recorded from the test-suite has any number of tables and an explicit
+\* parent function `par`, 0 = no enclosing scope)
+RECURSIVE ChainPar(_, _)
+ChainPar(S, t) == IF S.par[t] = 0 THEN <<t>> ELSE <<t>> \o ChainPar(S, S.par[t])
+Chain(S, t) == IF "par" \in DOMAIN S THEN ChainPar(S, t)
+               ELSE IF t = 1 THEN <<1>>
                ELSE IF t = 2 THEN <<2, 1>>
                ELSE IF t = S.inner THEN <<t, 2, 1>>
                ELSE <<t>>
@@ -112,6 +122,7 @@ MergeExactlyOnce(pre, op, post) ==
            (z.id = w.id /\ z.name # w.name) => Norm(w.name) \in both
 
 ToSet(q) == {q[i] : i \in DOMAIN q}
+ShOf(op) == IF "sh" \in DOMAIN op THEN op.sh ELSE FALSE
 
 \* The relation of the property: "ok" or the name of the first failing clause.
 \* out = "exc": the call raised (res.type = exception class); out = "ok": it
@@ -149,7 +160,15 @@ Verdict(pre, op, out, res, post) ==
      IN IF u # 0
         THEN (IF res.t = "sym" /\ res.id \in TagTargets(pre, u, op.tg)
               THEN "ok" ELSE "LookupInnermost")
-        ELSE (IF res.t = "sym" /\ Norm(res.name) \notin ExistingNames(pre, op.s, FALSE, 0)
+        ELSE (IF res.t = "sym" /\ Norm(res.name) \notin ExistingNames(pre, op.s, ShOf(op), 0)
+              THEN "ok" ELSE "FreshNameNoClash")
+  ELSE IF op.name = "find_or_create" THEN     \* lookup, else new_symbol
+     LET u == InnermostWith(pre, op.s, Norm(op.n))
+     IN IF u # 0
+        THEN (IF res.t = "sym"
+                 /\ res.id \in {x.id : x \in Named(SymsOf(pre, u), Norm(op.n))}
+              THEN "ok" ELSE "LookupInnermost")
+        ELSE (IF res.t = "sym" /\ Norm(res.name) \notin ExistingNames(pre, op.s, ShOf(op), 0)
               THEN "ok" ELSE "FreshNameNoClash")
   ELSE IF op.name = "merge" THEN
      IF MergeExactlyOnce(pre, op, post) THEN "ok" ELSE "MergeExactlyOnce"
